@@ -76,16 +76,24 @@ structure PoolH (cvals : Array Value) (cs : List Const) (h : Heap) (μ : AMap) :
   strs : ∀ (k : Nat) (s : Text), cs[k]? = some (Const.str s) → ∃ a0, cvals[k]? = some (Value.str a0) ∧ h.get a0 = .str s ∧ ∀ a, μ a ≠ some a0
   lits : ∀ (k : Nat) (y : UInt64), cs[k]? = some (Const.float y) → LitF y
 
+/-- the run's collector manages every cell allocated so far exactly once; every machine array is the
+    image of an array of the semantics -/
+structure MemOK (μ : AMap) (m : Mem) : Prop where
+  nd : m.managed.Nodup
+  lt : ∀ a, a ∈ m.managed → a < m.heap.cells.size
+  arrs : ∀ a mvs, m.heap.get a = .arr mvs → a ∈ m.managed ∧ ∃ a0, μ a0 = some a
+
 structure Inv5 (s0 : VM) (CS : List Const) (Γ : Gam) (μ : AMap) (st : SState) (g : Array Value) (l : Value) (m : Mem) (out : List Text) : Prop where
   relG : ∀ b k, (b, k) ∈ Γ → ∀ v, envGet st.genv b = some v → ∃ mv, VRh μ st m.heap v mv ∧ g.getD k .null = mv
   last : VRh μ st m.heap st.last l
   hr : HR μ st m.heap
   out : st.out = out
   pool : PoolH s0.cvals CS m.heap μ
+  mok : MemOK μ m
 
 theorem Inv5.weaken {s0 : VM} {CS : List Const} {Γ : Gam} (d : Gam) {μ : AMap} {st : SState} {g : Array Value} {l : Value} {m : Mem} {out : List Text}
     (h : Inv5 s0 CS (d ++ Γ) μ st g l m out) : Inv5 s0 CS Γ μ st g l m out :=
-  ⟨fun b k hm v hv => h.relG b k (List.mem_append_right _ hm) v hv, h.last, h.hr, h.out, h.pool⟩
+  ⟨fun b k hm v hv => h.relG b k (List.mem_append_right _ hm) v hv, h.last, h.hr, h.out, h.pool, h.mok⟩
 
 /-- the machine reaches a failing step of kind `er`, having printed exactly `o` -/
 def Fails5 (C : Code) (s : VM) (er : Err) (o : List Text) : Prop :=
